@@ -170,6 +170,17 @@ func (w *World) Exec(op Op) bool {
 				return false
 			}
 		}
+	case OFreeNew:
+		var ids []txfile.PageID
+		for id, tp := range w.txPages {
+			if tp.isNew && !tp.freed && !tp.flushed && !tp.dirty && id != w.txRoot {
+				ids = append(ids, id)
+			}
+		}
+		sortIDs(ids)
+		if id, ok := sel(ids); ok {
+			return w.Free(id)
+		}
 	case OFlushPage:
 		if id, ok := sel(w.candFlush()); ok {
 			return w.FlushPage(id)
@@ -239,4 +250,30 @@ func GenConfig(r *core.Rand, bounded int) Config {
 		}
 	}
 	return cfg
+}
+
+// churnTxs generates transactions that allocate pages, free pages they just
+// allocated (first, last or any), allocate again, ... and end without commit,
+// each followed by a small committing transaction that allocates (a page
+// handed out twice shows in the ownership monitor and in the contents).
+func churnTxs(r *core.Rand) []Op {
+	var prog []Op
+	for t := 0; t < 2+r.Intn(4); t++ {
+		prog = append(prog, Op{K: OBegin, A: r.Intn(4), B: []int{0, 0, 3, 1000}[r.Intn(4)]})
+		for i := 0; i < 3+r.Intn(8); i++ {
+			switch r.Intn(5) {
+			case 0, 1:
+				prog = append(prog, Op{K: OAlloc, A: 1 + r.Intn(3), B: 0})
+			case 2:
+				prog = append(prog, Op{K: OFreeNew, A: 0}) // the lowest new page
+			case 3:
+				prog = append(prog, Op{K: OFreeNew, A: r.Intn(8)})
+			default:
+				prog = append(prog, Op{K: OFreeTop, A: 1 + r.Intn(2)})
+			}
+		}
+		prog = append(prog, Op{K: []OpKind{ORollback, OClose, ORollback, OCommit}[r.Intn(4)]})
+		prog = append(prog, Op{K: OBegin}, Op{K: OAlloc, A: 1 + r.Intn(4), B: 1}, Op{K: OCommit})
+	}
+	return prog
 }
